@@ -926,6 +926,17 @@ impl ContinuityStore {
         if from_message_id.is_some() && from_seq.is_some() {
             return Err("handoff requires only one of from_message_id or from_seq".to_string());
         }
+        if let Some(artifact_id) = summary_artifact_id.as_deref() {
+            // A handoff must carry a resolvable summary: an id has to name a stored artifact.
+            if !crate::handoff_context_bundle::artifact_blob_exists(
+                &self.workspace_root,
+                artifact_id,
+            ) {
+                return Err(format!(
+                    "handoff summary_artifact_id not found: {artifact_id}"
+                ));
+            }
+        }
 
         let from_events = self
             .replay_events(from_thread_id)
